@@ -76,7 +76,7 @@ func (t *TreeCase) valid() bool {
 	files := map[string]bool{}
 	dirs := map[string]bool{}
 	for _, f := range t.Files {
-		if len(f.Path) < 1 || len(f.Path) > 3 || f.Fill < 0 || f.Fill > 1<<20 {
+		if len(f.Path) < 1 || len(f.Path) > 3 || f.Fill < 0 || f.Fill > 1<<24 {
 			return false
 		}
 		for i, c := range f.Path {
